@@ -419,6 +419,37 @@ def run_linalg_vector(vec, tid: str, prop: str, variant: int = 0) -> dict:
     return rec.to_json()
 
 
+def run_const_vector(vec, tid: str, prop: str, variant: int = 0) -> dict:
+    """MC_Reduce vectors on constant polynomials (C11): every reduction numpoly mirrors, for the enumerated shape,
+    axis choice (none / single / negative / tuples in every order) and keepdims, against numpy on the raw array."""
+    import random
+    from .drivers.const import const_poly, INDEX_RESULT
+    reset_options()
+    rec = Recorder(tid, prop)
+    rng = random.Random(variant)
+    shape = tuple(vec["shape"])
+    kind = ("int", "float")[variant % 2]
+    a = rec.new(const_poly(rng, shape, kind))
+    family = {"sum": ["sum", "any", "count_nonzero"], "prod": ["prod", "all"], "mean": ["mean", "amax", "max"],
+              "cumsum": ["cumsum", "argmax", "argmin", "amin", "min"]}[vec["fn"]]
+    fn = family[(variant // 2) % len(family)]
+    axes = list(vec["axes"])
+    p = {}
+    if not vec["none"]:
+        if fn in ("cumsum", "argmax", "argmin"):
+            p["axis"] = axes[0]
+        else:
+            p["axis"] = axes[0] if len(axes) == 1 else axes
+    if vec["keepdims"] and fn not in ("cumsum", "argmax", "argmin"):
+        p["keepdims"] = True
+    sp = ("numpoly", "numpy", "method")[(variant // 6) % 3]
+    if sp == "method" and fn in ("argmax", "argmin", "count_nonzero"):
+        sp = "numpoly"
+    rec.do("constfn", [a], keep=False, fn=fn, p=p, spelling=sp, index_result=fn in INDEX_RESULT, np=[], np_out="ret")
+    rec.meta["source"] = "MC_Reduce"
+    return rec.to_json()
+
+
 def order_vectors(dump_path: str):
     out, stats = vectors(dump_path)
     pairs = [v for v in out if v["kind"] == "order"]
